@@ -19,7 +19,7 @@ class P:
             "0 or after each of the four built-in registration stages while the other threads parse / execute / register; (b) plain races "
             "of 2-8 first calls; (c) registrations racing evaluations that use the registered name, re-registrations inside the window in which "
             "the replaced handler is dropped, registrations arriving while an evaluation is inside a handler, and 200 rounds per process of a "
-            "registration racing six first uses of that spelling, each followed by a sequential use. Oracle: no panic, no deadlock, and "
+            "registration racing twelve first uses of that spelling, each followed by a sequential use; (d) a call that panics inside the engine (a precedence of 2^30 or more overflows the binding power when the operator is looked up) before, beside and ahead of calls that do not use that operator (oracle only). Oracle: no panic, no deadlock, and "
             "every call's result (value and final context; logs are interleaved and ignored) is one that the sequential model produces "
             "under some order of the same calls (all permutations are run through the extracted model). "
             "Non-trivial = distinct run with >= 2 concurrent calls.")
@@ -112,6 +112,19 @@ class P:
                 # the registration is issued 1 ms into the round: the readers (about 1.2 ms per parse) are in the middle of theirs
                 ops += ["||"] + readers + ["~1/REGI:%s:%s:0:0:61" % (hx("wq"), p_), ";;"] + readers
             items.append((" ".join(ops), ("rereg-persistent", "I", 6)))
+        # a call that panics INSIDE the engine (the one way there is: a precedence of 2^30 or more overflows the i32 binding power,
+        # in a build with overflow checks, when the operator is looked up) is that call's own business: the calls of other
+        # threads, before, concurrently and afterwards, return their sequential results. (Oracle only: the model's binding
+        # powers are unbounded integers, its domain is precedences below 2^30 - DESIGN.md 11.23.)
+        for prec in ("7fffffff", "40000000", "7ffffffe"):
+            for runner in ("", "@t/"):
+                for right in (0, 1):
+                    use = hx("1 huge 2")
+                    ops = ["REGI:%s:%s:0:%d:0" % (hx("huge"), prec, right), runner + "PARSE:" + use, "PARSE:" + hx("1 + 2 * 3"), "@u/EXEC:1:" + hx("x = 2; x * 4"),
+                           "||", "EXEC:2:" + hx("1 + 1"), "PARSE:" + hx("a huge b"), "EXEC:3:" + hx("max(1, 2)"), "@t/EXEC:2:" + hx("[1] == [1]"), ";;",
+                           "REGI:%s:6f:0:0:0" % hx("other"), "PARSE:" + hx("1 other 2"), "EXEC:1:" + hx("x + 1")]
+                    wants = [None, "ANY", "OK", "n(0,8,0)", None, "n(0,2,0)", "ANY", "n(0,2,0)", "b(1)", None, None, "OK", "n(0,3,0)"]
+                    items.append((" ".join(ops), ("engine-panic", wants, 7)))
         return flow.mk_cases("conc", items)
 
     @staticmethod
@@ -184,6 +197,7 @@ class P:
         return True
 
     def _check(self, case, impl):
+        if case.meta[0] == "engine-panic": return None
         info = self.allowed.get(case.cid)
         if not info or "sets" not in info: return None
         outs = impl.split(" ")
@@ -225,6 +239,17 @@ class P:
 
     def oracle(self, case, impl):
         outs = impl.split(" ")
+        if case.meta[0] == "engine-panic":
+            if len(outs) != len(case.meta[1]): return "violates", "missing results: " + impl[:80]
+            for i, (w, o) in enumerate(zip(case.meta[1], outs)):
+                if w is None or w == "ANY": continue
+                if w == "OK":
+                    if o.split(":")[0] != "OK": return "violates", "a call that does not use the operator whose lookup panics returned %s (call %d)" % (o[:50], i)
+                    continue
+                d = values.split_exec(o)
+                if d["cls"] != "OK" or d["value"] != w:
+                    return "violates", "a call that does not use the operator whose lookup panics returned %s, alone it returns %s (call %d)" % (o[:50], w, i)
+            return "ok", ""
         if impl in ("ABORT", "HANG", "MISSING") or any(o.split(":")[0] in ("PANIC", "DEADLOCK", "SKIP") for o in outs):
             return "violates", "a concurrent call panicked / deadlocked / aborted: " + " ".join(o[:12] for o in outs)
         r = self._check(case, impl)
